@@ -6,12 +6,12 @@ import os
 
 os.environ.setdefault("TQDM_DISABLE", "1")
 
-from ..core import Batch, cN, cbool, clist, cnat, copt, cpair
+from ..core import Batch, cN, cZ, cbool, clist, cnat, copt, cpair
 
 ID = "C08"
 LEVEL = "proof"
 PROP_FILE = "Properties/C08.v"
-PROOF_FILES = ["Proofs/BinarizeProofs.v", "Model/Binarize.v"]
+PROOF_FILES = ["Proofs/BinarizeProofs.v", "Model/Binarize.v", "Model/Poly.v", "Proofs/PolyProofs.v", "Proofs/SpfsFinal.v", "Proofs/UspfsFinal.v"]
 TRUSTED = [
     "model Model/Binarize.v of utils/trees.py (is_binary, graft, arrange_leaves, binarize) and "
     "ReconciliationInput.binarize: already-resolved child subtrees are atoms; the literal variant with an explicit `ignore` "
@@ -35,9 +35,10 @@ RULE = (
     "several cost vectors, both extended solvers under policy ALL; non-trivial = more than one refinement pair and a positive optimum"
 )
 OPEN_GOALS = [
-    "ext_optimum_refinements_statement (Properties/C08.v): the extended solvers return the arg-min over binarize O x binarize S "
-    "of the binary optimum (needs the solver models of C02/C03 and C16's update_batches; covered here only by the "
-    "end-to-end batch `extended_solvers`)",
+    "child_order_invariance_statement (Proofs/PolyProofs.v): the binary optimum of the extended solvers does not change when a refinement "
+    "is replaced by the same tree with children in another order; with it, `minimum over the enumerated pairs` (proved: "
+    "C08_ext_optimum_refinements_*) becomes `minimum over every binary refinement whatever its child order` "
+    "(the enumeration is proved complete and duplicate-free up to child order: C08_refinement_pairs_complete / _nodup)",
 ]
 
 HEADER = "From SR Require Import Model.Binarize.\n"
@@ -816,8 +817,99 @@ def _solver_batch(ctx):
                  "(no Gallina solver model on this batch: Coq only folds the minimum)",
     )
 
+    # ---------------------------------------------------------------- (d) the loop model of Model/Poly.v
+    # spfs_poly / uspfs_poly (the models the theorems ext_optimum_refinements* are about) against the code:
+    # value, and for every refinement pair (by its index in binarize() order) the number of optimal solutions
+    def names_ok(c):
+        for t in (c["object"], c["species"]):
+            nm = [n[0] for n in nodes_of(t) if n[0]]
+            if len(nm) != len(set(nm)):
+                return False
+        return True
 
-TECHNIQUE = ("Coq proof (induction on atom trees / nested induction on rose trees) that the enumerator model is a duplicate-free, "
+    pcases = [c for c in cases if names_ok(c)]
+
+    def name_codes(t):
+        return {n[0]: i for i, n in enumerate(x for x in nodes_of(t) if x[0])}
+
+    def enc_named(n, codes, ctor):
+        lab = copt(cnat(codes[n[0]])) if n[0] else "None"
+        if not n[2]:
+            return f"(RLeaf {lab})"
+        return f"(RNode {lab} {clist(enc_named(k, codes, ctor) for k in n[2])})"
+
+    def ordered_key(node):
+        if node.is_leaf():
+            return node.name
+        return "(" + ",".join(ordered_key(k) for k in node.children) + ")"
+
+    def impl_poly(c):
+        from superrec2.utils.dynamic_programming import RetentionPolicy
+        r = impl(c)
+        if "err" in r:
+            return r
+        try:
+            index = {}
+            for i, b in enumerate(make_input(c).binarize()):
+                index[(ordered_key(b.object_tree), ordered_key(b.species_lca.tree))] = i
+            res = run_solver(c, make_input(c))
+            r["idx"] = sorted(index[(ordered_key(o.input.object_tree), ordered_key(o.input.species_lca.tree))] for o in res)
+            anyres = _solvers()[c["solver"]](make_input(c), RetentionPolicy.ANY)
+            r["any"] = sorted(_cost_code(o.cost()) for o in anyres)
+        except Exception as e:  # noqa: BLE001
+            return {"err": type(e).__name__ + ": " + str(e)[:100]}
+        return r
+
+    def costs_dict(c):
+        cv = c.get("costs", [0, 1, 1, 1, 1])
+        return {"spe": cv[0], "dup": cv[1], "hgt": "inf" if cv[2] is None else cv[2], "floss": cv[3], "sloss": cv[4]}
+
+    def enc_in_poly(c):
+        from .. import recon as R
+        oc, sc = name_codes(c["object"]), name_codes(c["species"])
+        ld = clist(cpair(cnat(oc[o]), cpair(cnat(sc[c["map"][o]]), clist(cN("abc".index(f) + 1) for f in c["syn"][o])))
+                   for o in leaves_of(c["object"]))
+        return cpair(cbool(c["solver"] == "spfs"), R.enc_costs(costs_dict(c)), ld,
+                     enc_named(c["object"], oc, None), enc_named(c["species"], sc, None))
+
+    def ext_code(x):
+        return "PInf" if x >= INF_CODE else f"(Fin {cZ(x)})"
+
+    def enc_out_poly(c, r):
+        if "err" in r:
+            return "None"
+        v = "PInf" if r["min"] is None else ext_code(r["min"])
+        va = "PInf" if not r["any"] else ext_code(r["any"][0])
+        return copt(cpair(v, clist(map(cnat, r["idx"])), va, cnat(len(r["any"]))))
+
+    ctx.dist["poly_model"] = {"cases": len(pcases), "by_solver": {s: sum(c["solver"] == s for c in pcases) for s in ("spfs", "uspfs")}}
+    yield Batch(
+        name="poly_model",
+        header="From SR Require Import Base.Ext Model.Entry Model.Recon Model.Binarize Model.Poly.\n"
+        "Definition idx_count (l : list nat) (i : nat) := length (filter (Nat.eqb i) l).\n"
+        "Definition idx_eqb (a b : list nat) := Nat.eqb (length a) (length b) && "
+        "forallb (fun i => Nat.eqb (idx_count a i) (idx_count b i)) (seq 0 300).\n"
+        "Definition ext_eqb' (a b : ext) := match a, b with PInf, PInf => true | NInf, NInf => true | Fin x, Fin y => Z.eqb x y | _, _ => false end.\n"
+        "Definition poly_obs (ordered : bool) c ld o s :=\n"
+        "  let run := if ordered then spfs_poly else uspfs_poly in\n"
+        "  match run c RALL ld o s, run c RANY ld o s with\n"
+        "  | Some e, Some a => Some (val e, map fst (tags e), val a, length (tags a))\n"
+        "  | _, _ => None end.\n",
+        run="fun '(ordered, c, ld, o, s) => poly_obs ordered c ld o s",
+        eqb="fun a b => match a, b with None, None => true | Some (v1, l1, w1, n1), Some (v2, l2, w2, n2) => "
+            "ext_eqb' v1 v2 && idx_eqb l1 l2 && ext_eqb' w1 w2 && Nat.eqb n1 n2 | _, _ => false end",
+        ty_in="bool * costs * leafdata * rose * rose", ty_out="option (ext * list nat * ext * nat)",
+        cases=pcases, impl=impl_poly, enc_in=enc_in_poly, enc_out=enc_out_poly, oracle=oracle,
+        nontrivial=lambda c, r: "err" not in r and double_fact_count(c["object"]) * double_fact_count(c["species"]) > 1,
+        exhaustive=False, shard=8,
+        describe="Model/Poly.v (spfs_poly / uspfs_poly: one MIN entry fed the candidates of every refinement pair in binarize() order) "
+                 "against sreconcile_extended_spfs / usreconcile_extended_uspfs on the same polytomous inputs: minimum under ALL and ANY, "
+                 "number of solutions under ANY, and under ALL the multiset of refinement-pair indexes the returned solutions refer to",
+    )
+
+
+TECHNIQUE = ("Coq proof that one MIN entry fed the candidates of every refinement pair holds the optimum over the pairs (C16 batch theorem + C02/C03 exactness); "
+             "Coq proof (induction on atom trees / nested induction on rose trees) that the enumerator model is a duplicate-free, "
              "complete enumeration of the binary refinements with the (2k-3)!! count; model tied to the code by exhaustive "
              "small-shape correspondence evaluated with vm_compute, list against list in enumeration order")
 LEVEL_TEXT = ("Machine-checked theorems on the model of graft/arrange_leaves/binarize for trees of any size and arity: "
@@ -825,8 +917,13 @@ LEVEL_TEXT = ("Machine-checked theorems on the model of graft/arrange_leaves/bin
               "kept; no two results equal up to child order (distinct leaf names); every binary tree meeting the clade "
               "characterisation (same leaves, clades and labels kept, other nodes unlabelled) produced up to child order; arrange_leaves enumerates all binary trees over its atoms exactly once; the literal `ignore`-set "
               "variant equals the atom variant; a binary input is returned unchanged. "
-              "The model is compared, list against list, with utils/trees.binarize on every rose-tree shape up to 5 (quick) / 6 "
-              "(thorough) leaves and with ReconciliationInput.binarize()+label_internal() on labelled, coloured inputs with leaf data.")
+              "End to end (Model/Poly.v = the outer loop of _spfs/_uspfs feeding ONE entry with the candidates of every refinement pair): inside the coherent region "
+              "the extended ordered and unordered solvers on inputs of any arity return, under ALL, exactly the solutions of minimum cost over all enumerated refinement pairs and all their solutions "
+              "(duplicate-free, each referring to its pair), under ANY one of them, the value is the minimum of the binary optimum over the pairs; every returned solution refers to binary refinements "
+              "of both trees with the original leaf data; the pairs are all pairs of refinements, each once, up to child order. "
+              "The models are compared with utils/trees.binarize list against list on every rose-tree shape up to 5 (quick) / 6 (thorough) leaves and random 6-9 leaf trees, with "
+              "ReconciliationInput.binarize()+label_internal() on labelled, coloured inputs with leaf data, and spfs_poly/uspfs_poly with the extended solvers on polytomous inputs "
+              "(value, refinement-pair index of every returned solution, ANY).")
 LEVEL_NOTE = ("Trusted: Coq kernel; the hand-written model (differential-tested, not proved); that equal ete3 topology ids imply "
               "equal leaf-name sets (no md5 collision) and that leaf names are distinct. "
               "The clause 'the extended solvers return the optimum over all binary refinements' is NOT a theorem "
